@@ -193,6 +193,14 @@ BlankFaults ==
                <<[op |-> "String", name |-> "home", data |-> <<>>, expect |-> [kind |-> "err", why |-> "fault", line |-> n + 2], path |-> ""]>>, "layout-runtime") :
         n \in 0..3, bl \in BOOLEAN, f \in RunFaults}
 
+\* an unknown component whose use does not end on the line of its keyword and name (arguments over several lines, slots): the
+\* construct is the name on the keyword's line
+UnknownSpread ==
+     {PathCase(<<FileRec("home", Lines(Pad(n) \o <<"@component(\"~ghost\", {", "  a: 1,", "  b: 2", "})", "after">>), "")>>,
+               [ok |-> FALSE, mentions |-> <<"home", "components/ghost">>, file |-> "home", line |-> n + 1], <<>>, "unknown-component") : n \in 0..3}
+\cup {PathCase(<<FileRec("home", Lines(Pad(n) \o <<"@component(\"~ghost\")", "@slot", "s", "@end", "@slot(\"x\")", "t", "@end", "@end", "after">>), "")>>,
+               [ok |-> FALSE, mentions |-> <<"home", "components/ghost">>, file |-> "home", line |-> n + 1], <<>>, "unknown-component") : n \in 0..3}
+
 \* faults in the page itself around a component: in a slot body the page passes, in an argument, after the component
 CardLines == <<"<c>@slot</c>|@slot(\"foot\")">>
 RunCase(home, line, tag) == PathCase(<<FileRec("components/card", Lines(CardLines), ""), FileRec("components/c", Lines(GoodComp), ""), FileRec("home", Lines(home), "")>>,
@@ -218,7 +226,7 @@ CycleTrees == {PathCase(<<FileRec("components/self", "s@if(false)@component(\"~s
                         [any |-> TRUE, mentions |-> <<"components/a", "components/b", "home">>], <<>>, "component-cycle"),
                PathCase(<<FileRec("layouts/l", "@use(\"~l\")@reserve(\"x\")", ""), FileRec("home", "@use(\"~l\")@insert(\"x\", 1)", "")>>,
                         [any |-> TRUE, mentions |-> <<"layouts/l", "home">>], <<>>, "layout-cycle")}
-Cases == CASE Family = "c13tree" -> TreeFaults \cup BlankFaults \cup CompFaults \cup CycleTrees
+Cases == CASE Family = "c13tree" -> TreeFaults \cup BlankFaults \cup UnknownSpread \cup CompFaults \cup CycleTrees
            [] Family = "c18names" -> NameCases(Singles, Spellings, Exts)
            [] Family = "c18namesall" -> NameCases(Singles \cup Pairs, Spellings, Exts)
            [] Family = "c18faults" -> AfterHealthy(FaultCases \cup TruncCases) \cup FaultCases \cup TruncCases \cup BaseCase
